@@ -287,6 +287,18 @@ def seq_rules(view, bs, coll, want_enumerate=True, label="sequence"):
         # Ok payload of a child call
         ok = val[0] == "field" and val[2] == "Ok" and val[1][0] == "call" and val[1][1] in children
         if not ok:
+            # carried there by a helper (`keep_or_merge(&mut error, child_result, loc)?` -> `Ok(Some(v))`): every alternative counts
+            al = [strip_refs(canon(view, a)) for a in view.alts(view.origin(t["args"][ADDERS[base]]))]
+            if al and len(set(al)) == 1 and all(a[0] == "field" and a[2] == "Ok" and isinstance(a[1], tuple) and a[1][0] == "call" and a[1][1] in children for a in al):
+                ok = True
+                val = al[0]
+            elif not (al and any(a[0] in ("const",) or (a[0] == "agg") for a in al)):
+                f_ = finding("C06.SEQ", view, "the value added to the result is not the Ok payload of a child deserialisation", bb, fmt(val))
+                f_.what += ": where the value comes from was not read: not recognised (undecided)"
+                f_.undecided = True
+                out.append(f_)
+                continue
+        if not ok:
             out.append(finding("C06.SEQ", view, "the value added to the result is not the Ok payload of a child deserialisation", bb, fmt(val)))
             continue
         ch = children[val[1][1]]
